@@ -2,13 +2,14 @@
 
 // Verification probes (compiled to nothing unless EPHEMERALNET_VERIF is defined).
 // EPH_VERIF_ACCESS marks an access to a group of shared state; a verification harness
-// supplies ephemeralnet::verif::access() and records which locks the calling thread holds.
+// supplies ephemeralnet::verif::access() and records which locks the calling thread holds;
+// the object pointer tells instances apart.
 
 #ifdef EPHEMERALNET_VERIF
 namespace ephemeralnet::verif {
-void access(const char* group, const char* site, bool write);
+void access(const char* group, const char* site, bool write, const void* object);
 }
-#define EPH_VERIF_ACCESS(group, site, write) ::ephemeralnet::verif::access((group), (site), (write))
+#define EPH_VERIF_ACCESS(group, site, write) ::ephemeralnet::verif::access((group), (site), (write), static_cast<const void*>(this))
 #else
 #define EPH_VERIF_ACCESS(group, site, write) ((void)0)
 #endif
